@@ -120,7 +120,7 @@ func Generate(r *vc.Rand, id string, o Opts) *spec.Spec {
 		}
 	}
 	// security schemes
-	if o.Profile == "security" || x.chance(1, 5) {
+	if o.Profile == "security" || x.chance(1, 5) || o.Profile == "openapi" && x.chance(1, 2) {
 		x.genSchemes()
 	}
 	// user types
@@ -152,7 +152,8 @@ func Generate(r *vc.Rand, id string, o Opts) *spec.Spec {
 		x.genService(i, svcUsed)
 	}
 	if o.Runtime && !o.NoGadgets {
-		x.genGadgetService() // gadgets.go
+		x.genGadgetService()         // gadgets.go
+		x.genSecurityGadgetService() // gadgets.go
 	}
 	// a single-file server is a GET route: drop the ones whose full path is also served by a GET or HEAD endpoint of
 	// ANY service (two handlers for one verb and path make the design ambiguous; goa does not detect it)
